@@ -583,6 +583,12 @@ func c10Check(c *ctx, prog string, d interface{}, in string, res goResult) {
 			c.rep.SkipReasons["Eval/EvalBytes parity of a program with sanctioned variation ($random, $shuffle, $now, $millis)"]++
 			return
 		}
+		if berr == nil && inherentlyVaries(prog, d) {
+			// a position picked from an unordered enumeration (`(*.x)[k]`): the two evaluations walked the object differently
+			c.rep.Skipped++
+			c.rep.SkipReasons["outcome depends on map iteration order (fresh evaluations differ among themselves)"]++
+			return
+		}
 		if berr == nil {
 			c.disagree(Disagreement{Kind: "evalbytes-succeeds-where-eval-fails", Prog: prog, Input: d, InputS: in, Go: "EvalBytes: " + trunc(string(viaBytes), 200), Model: "Eval: " + res.outcome})
 		}
